@@ -1,0 +1,106 @@
+//go:build verif
+
+// Contracts for the deductive verifier in /verif (govc): encode/decode pairs
+// of the shard format (C09). Comment-only file, compiled only with -tags verif.
+
+package index
+
+// ---------------------------------------------------------------------------
+// C09: trigram packing
+// ---------------------------------------------------------------------------
+
+// Three runes below 2^21 are packed into disjoint 21-bit fields ...
+//@ func index.runesToNGram
+//@   requires 0 <= b[0] && b[0] < 2097152 && 0 <= b[1] && b[1] < 2097152 && 0 <= b[2] && b[2] < 2097152
+//@   ensures result == b[0] * 4398046511104 + b[1] * 2097152 + b[2]
+//@   assigns nothing
+
+// ... and unpacked field by field.
+//@ func index.ngramToRunes
+//@   ensures result[0] == (n / 4398046511104) % 2097152 && result[1] == (n / 2097152) % 2097152 && result[2] == n % 2097152
+//@   assigns nothing
+
+// The two are inverse on valid runes (pure arithmetic over the two contracts).
+//@ lemma ngramRoundTrip: forall a, b, c int :: 0 <= a && a < 2097152 && 0 <= b && b < 2097152 && 0 <= c && c < 2097152 ==> ((a * 4398046511104 + b * 2097152 + c) / 4398046511104) % 2097152 == a && ((a * 4398046511104 + b * 2097152 + c) / 2097152) % 2097152 == b && (a * 4398046511104 + b * 2097152 + c) % 2097152 == c
+
+// The ASCII fast path: the 21-bit array index of three ASCII bytes converts
+// back to exactly the canonical ngram of those bytes.
+//@ func index.asciiNgramIndex
+//@   requires a < 128 && b < 128 && c < 128
+//@   ensures result == a * 16384 + b * 128 + c
+//@   assigns nothing
+
+//@ func index.asciiIndexToNgram
+//@   requires idx < 2097152
+//@   ensures result == (idx / 16384) * 4398046511104 + ((idx / 128) % 128) * 2097152 + idx % 128
+//@   assigns nothing
+
+//@ lemma asciiIndexAgrees: forall a, b, c int :: 0 <= a && a < 128 && 0 <= b && b < 128 && 0 <= c && c < 128 ==> ((a * 16384 + b * 128 + c) / 16384) == a && ((a * 16384 + b * 128 + c) / 128) % 128 == b && (a * 16384 + b * 128 + c) % 128 == c
+
+// ---------------------------------------------------------------------------
+// C09: skip decisions ("rejected documents are still present, with an
+// explanation") - which reason is given for which content
+// ---------------------------------------------------------------------------
+
+// clearTrigrams empties or allocates the scratch map (assumed: the builtin
+// clear is outside the verifier's subset); nothing else is written.
+//@ func index.(*DocChecker).clearTrigrams
+//@   trusted
+//@   requires t != nil
+//@   ensures t.trigrams != nil && (t.trigrams == old(t.trigrams) || fresh(t.trigrams))
+//@   assigns t.trigrams, mapof(t.trigrams)
+
+//@ func index.(*DocChecker).Check
+//@   requires t != nil
+//@   loop 1:
+//@     invariant t.trigrams != nil && (t.trigrams == old(t.trigrams) || fresh(t.trigrams))
+//@     invariant 0 <= cur[0] && cur[0] <= 1114111 && 0 <= cur[1] && cur[1] <= 1114111 && 0 <= cur[2] && cur[2] <= 1114111
+//@     decreases len(content)
+//@     assigns mapof(t.trigrams)
+//@   ensures len(content) == 0 ==> result == SkipReasonNone
+//@   ensures 0 < len(content) && len(content) < 3 ==> result == SkipReasonTooSmall
+//@   ensures result == SkipReasonTooSmall ==> 0 < len(content) && len(content) < 3
+//@   ensures len(content) >= 3 && (exists i int :: 0 <= i && i < len(content) && content[i] == 0) ==> result == SkipReasonBinary
+//@   ensures result == SkipReasonBinary ==> (exists i int :: 0 <= i && i < len(content) && content[i] == 0)
+//@   ensures result == SkipReasonTooManyTrigrams ==> !allowLargeFile && len(content) - 2 > maxTrigramCount
+//@   ensures result == SkipReasonNone || result == SkipReasonTooSmall || result == SkipReasonBinary || result == SkipReasonTooManyTrigrams
+//@   assigns t.trigrams, mapof(t.trigrams)
+
+// ---------------------------------------------------------------------------
+// C09 / C10: Builder.Add queues every document exactly once, with the skip
+// reason the content calls for
+// ---------------------------------------------------------------------------
+
+// nQueued counts documents appended to the builder's queue (ghost).
+//@ ghost var nQueued int
+
+// Pattern matching of Options.LargeFiles (assumed: no effect on memory).
+//@ func index.(*Options).IgnoreSizeMax
+//@   trusted
+//@   assigns nothing
+
+// Category / language detection only fill in their own field (assumed: they
+// call into go-enry).
+//@ func index.DetermineFileCategory
+//@   trusted
+//@   requires doc != nil
+//@   assigns doc.Category
+//@ func index.DetermineLanguageIfUnknown
+//@   trusted
+//@   requires doc != nil
+//@   assigns doc.Language
+
+// flush hands the queue to a shard build (assumed here; nothing that Add's
+// contract observes afterwards except the ghost counter, which it cannot touch).
+//@ func index.(*Builder).flush
+//@   trusted
+//@   requires b != nil
+
+//@ func index.(*Builder).Add
+//@   requires b != nil
+//@   ghost at call:append: nQueued = nQueued + 1
+//@   assert at call:append: (len(doc.Content) > b.opts.SizeMax && !allowLargeFile) ==> doc.SkipReason == SkipReasonTooLarge
+//@   assert at call:append: !(len(doc.Content) > b.opts.SizeMax && !allowLargeFile) && 0 < len(doc.Content) && len(doc.Content) < 3 ==> doc.SkipReason == SkipReasonTooSmall
+//@   assert at call:append: !(len(doc.Content) > b.opts.SizeMax && !allowLargeFile) && len(doc.Content) >= 3 && (exists i int :: 0 <= i && i < len(doc.Content) && doc.Content[i] == 0) ==> doc.SkipReason == SkipReasonBinary
+//@   ensures !old(b.finishCalled) ==> nQueued == old(nQueued) + 1
+//@   ensures old(b.finishCalled) ==> nQueued == old(nQueued) && result == nil
